@@ -633,14 +633,8 @@ fn run_positions_inner(c: &PCase) -> Result<Outcome, Failure> {
 				}
 			}
 		}
-		if std::env::var("KVERIF_DEBUG").is_ok() {
-			eprintln!("before grant {:?}", streamctl::state(id));
-		}
 		streamctl::grant(id, gap.steps);
-		let q = streamctl::wait_quiescent(&streams, Duration::from_millis(1000));
-		if std::env::var("KVERIF_DEBUG").is_ok() {
-			eprintln!("after wait {q} {:?}", streamctl::state(id));
-		}
+		streamctl::settle(&streams)?;
 		streamctl::set_callback_active(true);
 		let cb = mgr.backend_mut().callback(gap.frames, 2);
 		streamctl::set_callback_active(false);
@@ -650,7 +644,7 @@ fn run_positions_inner(c: &PCase) -> Result<Outcome, Failure> {
 		audible.push((0..gap.frames).map(|i| cb.out[2 * i]).collect());
 	}
 	// --- streaming oracle
-	streamctl::wait_quiescent(&streams, Duration::from_millis(1000));
+	streamctl::settle(&streams)?;
 	let got = streamctl::take_pushes(id);
 	if std::env::var("KVERIF_DEBUG").is_ok() {
 		eprintln!("delivered {got:?}\nreference {want_pushes:?}");
